@@ -203,16 +203,16 @@ Qed.
 
 (* an external event fires *)
 Lemma tc_fire s a e0 rest e : stacks s !! a = Some (FFire e0 :: rest) -> tcover s e = true ->
-  tcover (setstack (setev s e0 {| fired := true; wakers := [] |}) a (wake_frames (getev s e0).(wakers) ++ rest)) e = true.
+  tcover (setstack (setev s e0 {| fired := true; wakers := [] |}) a (wake_frames (rev (getev s e0).(wakers)) ++ rest)) e = true.
 Proof.
-  intros Hst. set (ws := wakers (getev s e0)). set (s0 := setev s e0 _). set (s' := setstack _ _ _).
+  intros Hst. set (ws := rev (wakers (getev s e0))). set (s0 := setev s e0 _). set (s' := setstack _ _ _).
   assert (Hs : stacks s' = <[a := wake_frames ws ++ rest]> (stacks s)) by (subst s' s0; solve_stacks).
   assert (Hnw : forall w, np (is_wake w) s <= np (is_wake w) s').
   { intros w. eapply np_mono; [exact Hst|exact Hs|]. rewrite cntf_app. cbn. lia. }
   assert (Hu : forall e w, unfreg s e w = true -> unfreg s' e w = true \/ posb (np (is_wake w) s') = true).
   { intros e' w Hu. destruct (decide (e' = e0)) as [->|Hne].
     - right. unfold unfreg in Hu. apply andb_true_iff in Hu as [_ Hin]. apply bool_decide_eq_true in Hin.
-      eapply (np_pos_wake s' a). eapply fsat_new; [exact Hst|exact Hs|]. apply elem_of_app. left. by apply in_wake_frames.
+      eapply (np_pos_wake s' a). eapply fsat_new; [exact Hst|exact Hs|]. apply elem_of_app. left. apply in_wake_frames. subst ws. by apply elem_of_rev.
     - left. unfold unfreg in *. change (getev s' e') with (getev s0 e'). subst s0. by rewrite getev_setev_ne. }
   assert (Hgd : forall e d, gd s e d = true -> gd s' e d = true).
   { intros e' d. unfold gd. rewrite !orb_true_iff. intros [[H|H]|H]; [|left; right; eapply posb_mono; [apply Hnw|done]|by right].
@@ -222,7 +222,7 @@ Proof.
   intros [(Hf & w & Hin & He)|[(c & w & Hf & He)|(c & d2 & w2 & Hf & He & Hg)]].
   + destruct (decide (e = e0)) as [->|Hne].
     * apply tcover_iff. right; left. exists a, w. split; [|by rewrite Heq].
-      eapply fsat_new; [exact Hst|exact Hs|]. apply elem_of_app. left. by apply in_wake_frames.
+      eapply fsat_new; [exact Hst|exact Hs|]. apply elem_of_app. left. apply in_wake_frames. subst ws. by apply elem_of_rev.
     * apply tcover_iff. left. change (getev s' e) with (getev s0 e). subst s0. rewrite getev_setev_ne by done.
       split; [done|]. exists w. split; [done|by rewrite Heq].
   + apply tcover_iff. right; left. exists c, w. split; [|by rewrite Heq].
